@@ -186,6 +186,39 @@ fn codec_bad_header_then_good_frame(w: &mut Out, rng: &mut Rng, thorough: bool) 
     }
 }
 
+/// One codec reads a stream that ENDS inside a frame's payload (the peer hung up), reports that, and is then used on another,
+/// well-formed stream: every message of it comes back unchanged — nothing of the unfinished frame (a remembered header, a byte
+/// count) survives the error (seed C20-O: resumable reads whose state was cleared on `Err` but not on a clean end of input).
+fn codec_truncated_then_valid(w: &mut Out, rng: &mut Rng, thorough: bool) {
+    for _ in 0..(if thorough { 300 } else { 60 }) {
+        let m = loop { let m = gen_msg(rng); let mut f = Vec::new(); if matches!(guarded(|| Codec::new().write_message(&mut f, &m)), Ok(Ok(()))) && f.len() > 13 { break (m, f); } };
+        let (_, f1) = m;
+        let cut = 12 + rng.below((f1.len() - 12) as u64) as usize;            // the header is complete, the payload is not
+        let msgs: Vec<Message> = (0..3).map(|_| gen_msg(rng)).collect();
+        let mut good = Vec::new();
+        let mut ok = true;
+        for m2 in &msgs { ok &= matches!(guarded(|| Codec::new().write_message(&mut good, m2)), Ok(Ok(()))); }
+        if !ok { continue; }
+        let mut codec = Codec::new();
+        let first = guarded(|| codec.read_message(&mut Cursor::new(&f1[..cut])));
+        w.count("readmsg/truncated-then-valid");
+        if matches!(first, Ok(Ok(_))) {
+            let l = w.case("readmsg -", "TRUNC", true);
+            w.fail(l, "truncated-frame-accepted", &format!("a frame cut after {cut} of {} bytes was read as a message", f1.len()));
+            continue;
+        }
+        let mut cur = Cursor::new(&good);
+        for (k, m2) in msgs.iter().enumerate() {
+            let r = guarded(|| codec.read_message(&mut cur));
+            if !matches!(&r, Ok(Ok(got)) if got == m2) {
+                let l = w.case("readmsg -", "TRUNC", true);
+                w.fail(l, "codec-keeps-state-across-reads", &format!("after a stream that ended {cut} bytes into a {}-byte frame, message #{k} of a well-formed stream read through the same codec is not what was written", f1.len()));
+                break;
+            }
+        }
+    }
+}
+
 /// ONE codec value used for a whole conversation: writes that fail (a refused oversize message, a transport error)
 /// and reads of frames of different sizes must leave nothing behind that changes a later message.
 fn codec_sequences(w: &mut Out, rng: &mut Rng, thorough: bool) {
@@ -292,6 +325,7 @@ Non-trivial: payload ≥ 12 bytes; distinct = distinct query lines."
     codec_large_payloads(w, &mut rng, thorough);
     codec_trickle_sinks(w, &mut rng, thorough);
     codec_bad_header_then_good_frame(w, &mut rng, thorough);
+    codec_truncated_then_valid(w, &mut rng, thorough);
     let types = [MessageType::SignatureRequest, MessageType::SignatureResponse, MessageType::DeltaData, MessageType::Ack, MessageType::Error, MessageType::Ping, MessageType::Pong];
     // ---- headers
     for t in types {
